@@ -277,7 +277,7 @@ def main():
         obligations.append(ob)
         if s.get("mismatches"):
             broken.append({"obligation": ob, "detail": canon(s["mismatches"][:3])[:1500]})
-            mismatches += [dict(m, suite=sname) for m in s["mismatches"][:5]]
+            mismatches += [dict(m, suite=sname) for m in s["mismatches"][:25]]
         else:
             discharged.append(ob)
 
